@@ -455,7 +455,7 @@ namespace awkward {
       for (auto content : contents_) {
         if (RecordBuilder* raw = dynamic_cast<RecordBuilder*>(content.get())) {
           if (raw->fresh()  ||
-              ((check  &&  raw->name() == name)  ||
+              ((check  &&  raw->nameptr() != nullptr  &&  raw->name() == name)  ||
                (!check  &&  raw->nameptr() == name))) {
             tofill = content;
             break;
